@@ -79,5 +79,7 @@ example : (run true {} [.beginSwap, .endSwap, .take 1, .hand, .beginSwap, .take 
 theorem loader_skeletons : Skeletons.LoaderShape := Skeletons.loader_shape
 theorem line_skeletons : Skeletons.LineShape := Skeletons.line_shape
 theorem dispatch_skeletons : Skeletons.DispatchShape := Skeletons.dispatch_shape
+theorem f_vm_vm_skeletons : Skeletons.F_vm_vmShape := Skeletons.f_vm_vm_shape
+theorem f_runtime_runtime_skeletons : Skeletons.F_runtime_runtimeShape := Skeletons.f_runtime_runtime_shape
 
 end MtailVerif.C20
